@@ -237,7 +237,7 @@ Print Assumptions C02live_sender_progress_or_deadline_kept.
    through a state in which y has accepted the oldest unacknowledged octet. *)
 Theorem C02live_retransmission_eventually_delivered_partial : forall x Dt Da evs fa st st' u0,
   0 <= Dt ->
-  NI st -> opts_ok st -> dl_sync fa st ->
+  NI st -> opts_ok st -> dl_sync Da fa st ->
   run_all (oneway_safe x) st evs -> fair_run Dt Da fa st evs -> net_run st evs = Ok st' ->
   0 < txl x st -> una_off (net_get st x) = u0 -> rcv_off (net_get st (side_other x)) = u0 ->
   net_now st x + max_rto_us + Dt < net_now st' x ->
@@ -299,14 +299,14 @@ Print Assumptions C02live_ack_of_new_data_accepted.
    of the run is again a fair run from the progress state. *)
 Theorem C02live_ack_eventually_advances_snd_una_partial : forall x Dt Da Dack evs fa st st' u0,
   0 <= Dt -> 0 <= Dack ->
-  NI st -> opts_ok st -> dl_sync fa st ->
+  NI st -> opts_ok st -> dl_sync Da fa st ->
   run_all (safe3 x Dack) st evs -> fair_run Dt Da fa st evs -> net_run st evs = Ok st' ->
   0 < txl x st -> una_off (net_get st x) = u0 ->
   net_now st x + max_rto_us + 2 * Dt + Dack < net_now st' x ->
   exists pre post fa1 st1,
     evs = pre ++ post /\ net_run st pre = Ok st1 /\ net_run st1 post = Ok st' /\
     run_all (safe3 x Dack) st1 post /\ fair_run Dt Da fa1 st1 post /\
-    NI st1 /\ opts_ok st1 /\ dl_sync fa1 st1 /\
+    NI st1 /\ opts_ok st1 /\ dl_sync Da fa1 st1 /\
     Qg x u0 st1 /\ net_now st1 x <= net_now st x + max_rto_us + 2 * Dt + Dack.
 Proof. exact ack_round. Qed.
 Print Assumptions C02live_ack_eventually_advances_snd_una_partial.
@@ -316,7 +316,7 @@ Print Assumptions C02live_ack_eventually_advances_snd_una_partial.
    octets still unacknowledged: induction over the rounds. *)
 Theorem C02live_all_written_bytes_eventually_acked_partial : forall x Dt Da Dack n evs fa st st' L0,
   0 <= Dt -> 0 <= Dack ->
-  NI st -> opts_ok st -> dl_sync fa st ->
+  NI st -> opts_ok st -> dl_sync Da fa st ->
   run_all (safe3 x Dack) st evs -> fair_run Dt Da fa st evs -> net_run st evs = Ok st' ->
   L0 <= l_len (ep_written (net_get st x)) ->
   L0 - una_off (net_get st x) <= Z.of_nat n ->
@@ -341,7 +341,7 @@ Print Assumptions C02live_run_invariant_initial.
 Theorem C02live_composition_hypotheses_satisfiable :
   exists st0 st st',
     net_init ex_cfg_a ex_cfg_b = Ok st0 /\ net_run st0 wit_prefix = Ok st /\
-    NI st /\ opts_ok st /\ dl_sync (fa_init 5000 5000 st) st /\
+    NI st /\ opts_ok st /\ dl_sync 5000 (fa_init 5000 5000 st) st /\
     run_all (safe3 SA 10000) st wit_suffix /\ fair_run 5000 5000 (fa_init 5000 5000 st) st wit_suffix /\
     net_run st wit_suffix = Ok st' /\
     5 <= l_len (ep_written (net_get st SA)) /\ 5 - una_off (net_get st SA) <= Z.of_nat 5 /\
